@@ -26,6 +26,13 @@ let rec map f = function
 | [] -> []
 | a :: t -> (f a) :: (map f t)
 
+(** val fold_left : ('a1 -> 'a2 -> 'a1) -> 'a2 list -> 'a1 -> 'a1 **)
+
+let rec fold_left f l a0 =
+  match l with
+  | [] -> a0
+  | b :: t -> fold_left f t (f a0 b)
+
 (** val existsb : ('a1 -> bool) -> 'a1 list -> bool **)
 
 let rec existsb f = function
@@ -49,6 +56,12 @@ let rec skipn n l =
   | S n0 -> (match l with
              | [] -> []
              | _ :: l0 -> skipn n0 l0)
+
+(** val seq : nat -> nat -> nat list **)
+
+let rec seq start = function
+| O -> []
+| S len0 -> start :: (seq (S start) len0)
 
 (** val repeat : 'a1 -> nat -> 'a1 list **)
 
